@@ -6,4 +6,6 @@ Require Import ExtrOcamlBasic.
 Separate Extraction
   parse_sps_er parse_sps_br flat_sps
   nalu_sps expected_sps sps_valid sps_offsets_zero
-  parse_pps_er parse_pps_br flat_pps nalu_pps expected_pps pps_valid.
+  parse_pps_er parse_pps_br flat_pps nalu_pps expected_pps pps_valid
+  parse_slice_er parse_slice_br flat_slice nalu_slice expected_slice slice_valid
+  eff_l0 eff_l1 slice_group_change_cycle_bits sl_has_fmo_cycle eff_chroma_format_idc.
